@@ -19,12 +19,17 @@ TT_ = {"Z": ("Zahl", {"k": "p", "n": "Z"}, "5"), "T": ("Text", {"k": "p", "n": "
        "N": ("Nummer", {"k": "a", "n": "Nummer", "u": {"k": "p", "n": "Z"}}, "(5 als Nummer)"), "H": ("Hausnummer", {"k": "d", "n": "Hausnummer", "u": {"k": "p", "n": "Z"}}, "(5 als Hausnummer)")}
 G_ = {"k": "g", "n": "T"}
 LG = {"k": "l", "e": G_}
-SIGS = {"ein_t": (["T"], [G_]), "zwei_t": (["T", "T"], [G_, G_]), "liste_und_t": (["T Liste", "T"], [LG, G_]), "zwei_listen": (["T Liste", "T Liste"], [LG, LG]),
+BOX = lambda a: {"k": "i", "n": "Box", "a": [a]}
+TT_.update({"BZ": ("Zahl-Box", BOX({"k": "p", "n": "Z"}), "(eine Box mit 5)"), "BT": ("Text-Box", BOX({"k": "p", "n": "T"}), '(eine Box mit "t")'),
+            "BN": ("Nummer-Box", BOX({"k": "a", "n": "Nummer", "u": {"k": "p", "n": "Z"}}), "(eine Box mit (5 als Nummer))")})
+SIGS = {"zwei_boxen": (["T-Box", "T-Box"], [BOX(G_), BOX(G_)]), "box_und_t": (["T-Box", "T"], [BOX(G_), G_]),
+        "ein_t": (["T"], [G_]), "zwei_t": (["T", "T"], [G_, G_]), "liste_und_t": (["T Liste", "T"], [LG, G_]), "zwei_listen": (["T Liste", "T Liste"], [LG, LG]),
         "t_und_zahl": (["T", "Zahl"], [G_, {"k": "p", "n": "Z"}])}
 
 
 def typing_part(ck, pool):
-    head = ["Wir nennen eine Zahl auch eine Nummer.", "Wir definieren eine Hausnummer als eine Zahl.", ""]
+    head = ["Wir nennen eine Zahl auch eine Nummer.", "Wir definieren eine Hausnummer als eine Zahl.", "",
+            "Wir nennen die generische Kombination aus", "\tdem T wert,", "eine Box, und erstellen sie so:", '\t"eine Box mit <wert>"', ""]
     for name, (ptypes, _) in SIGS.items():
         ps = ["p%d" % i for i in range(len(ptypes))]
         if len(ps) == 1:
@@ -32,12 +37,19 @@ def typing_part(ck, pool):
         else:
             decl = "mit den Parametern %s vom Typ %s" % (" und ".join([", ".join(ps[:-1]), ps[-1]]) if len(ps) > 2 else " und ".join(ps), " und ".join([", ".join(ptypes[:-1]), ptypes[-1]]) if len(ptypes) > 2 else " und ".join(ptypes))
         head += ["Die generische Funktion %s %s, gibt einen Wahrheitswert zurück, macht:" % (name, decl), "\tGib wahr zurück.", "Und kann so benutzt werden:", '\t"%s %s"' % (name, " ".join("<%s>" % p for p in ps)), ""]
+    H_ = {"k": "g", "n": "U"}
+    for nm, pt in (("gleichartig", "T-Box und T-Box"), ("verschiedenartig", "T-Box und U-Box")):
+        head += ["Die generische Funktion %s mit den Parametern a und b vom Typ %s, gibt einen Wahrheitswert zurück, macht:" % (nm, pt), "\tGib wahr zurück.", "Und kann so benutzt werden:", '\t"waehle <a> und <b>"', ""]
     head += ["Der Wahrheitswert erg ist wahr."]
     lines, meta = list(head), []
     for name, (ptypes, pterms) in SIGS.items():
         for combo in itertools.product(TT_, repeat=len(pterms)):
             lines.append("Speichere (%s %s) in erg." % (name, " ".join(TT_[c][2] for c in combo)))
             meta.append((len(lines), pterms, [TT_[c][1] for c in combo], name, combo))
+    anymeta = []
+    for combo in itertools.product(list(TT_), repeat=2):
+        lines.append("Speichere (waehle %s und %s) in erg." % (TT_[combo[0]][2], TT_[combo[1]][2]))
+        anymeta.append((len(lines), [[BOX(G_), BOX(G_)], [BOX(G_), BOX(H_)]], [TT_[c][1] for c in combo], combo))
     # generic Kombination: equal type arguments -> one type; different -> different types
     lines += ["Wir nennen die generische Kombination aus", "\tdem T inhalt,", "\tdem R extra,", "eine Kiste2, und erstellen sie so:", '\t"eine Kiste2 aus <inhalt> und <extra>"', ""]
     kinds = ["Z", "T", "N", "H", "LZ"]
@@ -72,6 +84,9 @@ def typing_part(ck, pool):
     for ln, pterms, aterms, name, combo in meta:
         recs.append(dict(e="unify", params=pterms, args=aterms, accepted=ln not in errl))
         desc.append("%s(%s)" % (name, ",".join(combo)))
+    for ln, alts, aterms, combo in anymeta:
+        recs.append(dict(e="unifyany", alts=alts, args=aterms, accepted=ln not in errl))
+        desc.append("waehle(%s)" % ",".join(combo))
     for dl, ln, a, b, ka, kb in imeta:
         if dl in errl:
             continue          # the declaration of the left value itself was not accepted (e.g. spelling of the type): not judged
@@ -93,6 +108,15 @@ def typing_part(ck, pool):
         ck.fail("C15:typing:%s" % desc[i], "%s: the frontend says %s, Generics.tla says otherwise" % (desc[i], recs[i].get("accepted", recs[i].get("same"))), dict(event=recs[i], source=src))
 
 
+def strip_alias(x):
+    """type aliases are transparent: the specification sees the aliased type"""
+    if isinstance(x, dict):
+        return {k: strip_alias(v) for k, v in x.items() if k != "alias"}
+    if isinstance(x, list):
+        return [strip_alias(v) for v in x]
+    return x
+
+
 def run(tier):
     ck = Check("C15", tier)
     rng = vlib.rng("c15")
@@ -108,6 +132,9 @@ def run(tier):
         P = semgen.batch_program(b, "C15-%d" % bi, funcs=[], nearly_stmts=[])
         S = gengen.specialise(P)
         Gp = gengen.generic_program(P)
+        for X in (S, Gp):
+            X["typedecls"] = gengen.TYPEDECLS
+            X["main_decoys"] = gengen.MAIN_DECOYS
         libS = ddp.render_with_lib(S, {f["n"] for f in S["funcs"]})
         libG = ddp.render_with_lib(Gp, {f["n"] for f in Gp["funcs"]})
         sources.append((b, S, [("S", ddp.render(S)), ("G", ddp.render(Gp)), ("Slib", libS), ("Glib", libG)]))
@@ -116,7 +143,7 @@ def run(tier):
     k = 0
     for b, S, vs in sources:
         meta.append((len(recs), b, vs))
-        recs.append(dict(e="prog", id="C15", p=dict(structs=S["structs"], funcs=S["funcs"], main=S["main"])))
+        recs.append(dict(e="prog", id="C15", p=strip_alias(dict(structs=S["structs"], funcs=S["funcs"], main=S["main"]))))
         for name, src in vs:
             r = results[k]
             k += 1
